@@ -113,6 +113,8 @@ pub enum Cmd {
     SinkOpen(usize, bool),
     /// a scheduling request issued from another thread, gated inside Deadline::into_time, racing with step()
     Race(u8, i64, usize, usize, i64),
+    /// Simulation::set_timeout (milliseconds)
+    SetTimeout(u64),
 }
 pub struct Case {
     threads: usize,
@@ -336,6 +338,7 @@ impl<'a> P<'a> {
                 let o = self.int() == 1;
                 Cmd::SinkOpen(k, o)
             }
+            "to" => Cmd::SetTimeout(self.us() as u64),
             "rc" => {
                 let kind = self.int() as u8;
                 let t = self.int();
@@ -1224,6 +1227,10 @@ fn run_inner(case: &Case) -> String {
                 let _ = rtx.send(());
                 let code = th.join().unwrap_or(9);
                 format!("race:{}:{}", code, sr)
+            }
+            Cmd::SetTimeout(ms) => {
+                simu.set_timeout(Duration::from_millis(*ms));
+                "ok".into()
             }
             Cmd::SinkOpen(k, o) => {
                 use nexosim::ports::EventSinkStream;
